@@ -2,6 +2,7 @@ import AasVerif.Lemmas.Lit.Cs
 import AasVerif.Lemmas.Lit.Go
 import AasVerif.Lemmas.Lit.Py
 import AasVerif.Lemmas.Lit.Cpp
+import AasVerif.Lemmas.Lit.Ts
 /-!
 # C19 — Emitted literals denote exactly the original values
 
@@ -209,5 +210,44 @@ example : dec_cppw (Text.ofString "L\"\\0011\\xd800\" L\"a\\351\\u4e2d\"") = som
 /-- what the unfixed generator emitted for "\x01" + "1": one merged escape -/
 example : dec_cppw (Text.ofString "L\"\\x11\"") = some [0x11] := by decide
 example : dec_cppw (Text.ofString "L\"\\ud800\"") = none := by decide
+
+/-! ## TypeScript (read with the ECMAScript 2019+ rules): double-quoted and template forms
+
+`in_backticks=True` escapes a `$` only when `{` follows; the template reader treats `${` as the
+start of a substitution (not a literal), so the look-ahead of the encoder is part of the proof. -/
+
+theorem tsq_roundtrip (s : Text) (hs : ∀ c ∈ s, c < 0x110000) :
+    ∃ lit, enc_ts false false s = .ok lit ∧ dec_tsq lit = some (s.flatMap utf16cp) := by
+  refine ⟨[34] ++ tsBody false s ++ [34], ?_, ?_⟩
+  · unfold enc_ts
+    simp only [Bool.false_eq_true, if_false, Bool.not_false, if_true, stripped]
+    rw [isStripped_quoted 34 _ (by decide)]; rfl
+  · rw [tsBody_false]
+    have hst : storable ([34] ++ s.flatMap (fun c => escTs false c none) ++ [34]) = true :=
+      storable_wrap _ _ _ (okSrc_list_small _ (by decide))
+        (okSrc_flatMap _ _ tsq_okSrc s hs) (okSrc_list_small _ (by decide))
+    unfold dec_tsq
+    rw [if_pos hst]
+    have hr := run_of_runs (runs_flatMap stepTsQ (fun c => escTs false c none) utf16cp [34] (· < 0x110000)
+      (fun c tail v hc h => tsq_char c tail v hc h) (Runs.done (by simp [stepTsQ])) s hs)
+    simpa using hr
+
+theorem tst_roundtrip (s : Text) (hs : ∀ c ∈ s, c < 0x110000) :
+    ∃ lit, enc_ts false true s = .ok lit ∧ dec_tst lit = some (s.flatMap utf16cp) := by
+  refine ⟨[96] ++ tsBody true s ++ [96], ?_, ?_⟩
+  · unfold enc_ts
+    simp only [Bool.false_eq_true, if_false, Bool.not_true, stripped]
+    rw [isStripped_quoted 96 _ (by decide)]; rfl
+  · have hst : storable ([96] ++ tsBody true s ++ [96]) = true :=
+      storable_wrap _ _ _ (okSrc_list_small _ (by decide))
+        (tst_okSrc s hs) (okSrc_list_small _ (by decide))
+    unfold dec_tst
+    rw [if_pos hst]
+    have hr := run_of_runs (runs_tst s hs)
+    simpa using hr
+
+example : enc_ts false true [36, 123, 36, 96, 0xDC00] = .ok (Text.ofString "`\\${$\\`\\udc00`") := by decide
+example : dec_tst (Text.ofString "`\\${$\\`\\udc00`") = some [36, 123, 36, 96, 0xDC00] := by decide
+example : dec_tst (Text.ofString "`${`") = none := by decide
 
 end AasVerif.Props.C19
